@@ -27,6 +27,7 @@ CONSTANTS FW,        \* foreign waker slots
           Rec,       \* record ids (naturals, allocated in increasing order)
           Thread,    \* threads; 1 is the polling thread
           Orig,      \* the caller's wakers (1..n): successive polls may come with different wakers
+          MaxNest,   \* how many by-value wakes one thread may have in progress (nested inside each other's callbacks)
           Deviations \* subset of {"release_per_handle"}
 
 VARIABLES ocount,   \* [Orig -> Int] clones of each original held by the foreign side
@@ -36,11 +37,15 @@ VARIABLES ocount,   \* [Orig -> Int] clones of each original held by the foreign
           rec,      \* [Rec -> [rc : Nat, held : BOOLEAN, rel : Nat, made : BOOLEAN]]
           fw,       \* [FW -> [r : Rec \cup {0}, own : Thread]]
           touched,  \* number of operations that reached the original through a released inner clone
+          waking,   \* [Thread -> Seq(FW)] by-value wakes in progress, innermost last: the original's wake() has been
+                    \* entered and has not returned, the handle that carries the wake is not yet given up.  Whatever the
+                    \* caller's wake function does (drop or wake a sibling, clone, hand a waker to another thread) and
+                    \* whatever other threads do meanwhile happens between FWakeBegin and FWakeEnd
           seen      \* what the original saw of its own reference count (relative to the base) at the instant it
                     \* was woken by the last action; -1 if the last action was not a wake.  A wake runs while the
                     \* clone it goes through is still held: "nothing touches the original after [they] are gone"
 
-vars == <<ocount, owakes, cur, inPoll, rec, fw, touched, seen>>
+vars == <<ocount, owakes, cur, inPoll, rec, fw, touched, waking, seen>>
 
 NoRec == [rc |-> 0, held |-> FALSE, rel |-> 0, made |-> FALSE, orig |-> 0]
 Inc(f, o) == [f EXCEPT ![o] = @ + 1]
@@ -48,7 +53,10 @@ Dec(f, o) == [f EXCEPT ![o] = @ - 1]
 Unmade == {r \in Rec : ~rec[r].made}
 MinOf(S) == CHOOSE x \in S : \A y \in S : x <= y
 IsFree(w) == fw[w].r = 0
-Owns(t, w) == fw[w].r # 0 /\ fw[w].own = t
+InFlight == UNION {{waking[t][k] : k \in DOMAIN waking[t]} : t \in Thread}
+(* a handle that is carrying a wake has been moved into wake(): nobody can use it any more *)
+Owns(t, w) == fw[w].r # 0 /\ fw[w].own = t /\ w \notin InFlight
+Quiet(t) == waking[t] = <<>>
 
 Init ==
   /\ ocount = [o \in Orig |-> 0]
@@ -58,38 +66,39 @@ Init ==
   /\ rec = [r \in Rec |-> NoRec]
   /\ fw = [w \in FW |-> [r |-> 0, own |-> 1]]
   /\ touched = 0
+  /\ waking = [t \in Thread |-> <<>>]
   /\ seen = -1
 
 (* the caller enters poll()/poll_next()/poll_ready()...: CRefWaker::from(cx.waker()) *)
-PollBegin(o) == /\ ~inPoll /\ inPoll' = TRUE /\ o \in Orig /\ cur' = o
-                /\ UNCHANGED <<ocount, owakes, rec, fw, touched>>
+PollBegin(o) == /\ ~inPoll /\ inPoll' = TRUE /\ o \in Orig /\ cur' = o /\ Quiet(1)
+                /\ UNCHANGED <<ocount, owakes, rec, fw, touched, waking>>
 
 (* the callee returns; the view waker is gone (its drop slot is a no-op)       *)
-PollEnd == /\ inPoll /\ inPoll' = FALSE
-           /\ UNCHANGED <<ocount, owakes, cur, rec, fw, touched>>
+PollEnd == /\ inPoll /\ inPoll' = FALSE /\ Quiet(1)
+           /\ UNCHANGED <<ocount, owakes, cur, rec, fw, touched, waking>>
 
 (* cx.waker().clone() inside the poll (task/mod.rs:128-133): one real clone of  *)
 (* the original, wrapped into a fresh record with one handle                    *)
 ViewClone(w) ==
-  /\ inPoll /\ IsFree(w) /\ Unmade # {}
+  /\ inPoll /\ IsFree(w) /\ Unmade # {} /\ Quiet(1)
   /\ LET r == MinOf(Unmade) IN
        /\ rec' = [rec EXCEPT ![r] = [rc |-> 1, held |-> TRUE, rel |-> 0, made |-> TRUE, orig |-> cur]]
        /\ fw' = [fw EXCEPT ![w] = [r |-> r, own |-> 1]]
   /\ ocount' = Inc(ocount, cur)
-  /\ UNCHANGED <<owakes, cur, inPoll, touched>>
+  /\ UNCHANGED <<owakes, cur, inPoll, touched, waking>>
 
 (* cx.waker().wake_by_ref() inside the poll (task/mod.rs:134-137)               *)
 ViewWakeByRef ==
-  /\ inPoll
+  /\ inPoll /\ Quiet(1)
   /\ owakes' = Inc(owakes, cur)
-  /\ UNCHANGED <<ocount, cur, inPoll, rec, fw, touched>>
+  /\ UNCHANGED <<ocount, cur, inPoll, rec, fw, touched, waking>>
 
 (* clone of a foreign waker (task/mod.rs:55-60): share the record                *)
 FClone(t, w, w2) ==
   /\ Owns(t, w) /\ IsFree(w2)
   /\ rec' = [rec EXCEPT ![fw[w].r].rc = @ + 1]
   /\ fw' = [fw EXCEPT ![w2] = [r |-> fw[w].r, own |-> t]]
-  /\ UNCHANGED <<ocount, owakes, cur, inPoll, touched>>
+  /\ UNCHANGED <<ocount, owakes, cur, inPoll, touched, waking>>
 
 (* giving up one handle: the inner clone of the original is released when the    *)
 (* last handle of the record goes (ideal), or on every handle (deviation)        *)
@@ -112,25 +121,40 @@ FWake(t, w) ==
   /\ owakes' = Inc(owakes, rec[fw[w].r].orig)   \* the waker it was cloned from, whatever the current poll uses
   /\ touched' = Touch(w)
   /\ ReleaseHandle(w)
-  /\ UNCHANGED <<inPoll, cur>>
+  /\ UNCHANGED <<inPoll, cur, waking>>
+
+(* the same in two steps: the original's wake() is entered (it is woken, through a clone that is still held) ... *)
+FWakeBegin(t, w) ==
+  /\ Owns(t, w) /\ Len(waking[t]) < MaxNest
+  /\ owakes' = Inc(owakes, rec[fw[w].r].orig)
+  /\ touched' = Touch(w)
+  /\ waking' = [waking EXCEPT ![t] = Append(@, w)]
+  /\ UNCHANGED <<ocount, cur, inPoll, rec, fw>>
+(* ... and returns: only now is the handle given up.  "Last handle" is decided HERE, atomically with giving it up -  *)
+(* not when the wake started: siblings may have come and gone in between                                            *)
+FWakeEnd(t) ==
+  /\ waking[t] # <<>>
+  /\ LET w == waking[t][Len(waking[t])] IN ReleaseHandle(w)
+  /\ waking' = [waking EXCEPT ![t] = SubSeq(@, 1, Len(@) - 1)]
+  /\ UNCHANGED <<owakes, cur, inPoll, touched>>
 
 FWakeByRef(t, w) ==
   /\ Owns(t, w)
   /\ owakes' = Inc(owakes, rec[fw[w].r].orig)
   /\ touched' = Touch(w)
-  /\ UNCHANGED <<ocount, cur, inPoll, rec, fw>>
+  /\ UNCHANGED <<ocount, cur, inPoll, rec, fw, waking>>
 
 FDrop(t, w) ==
   /\ Owns(t, w)
   /\ touched' = IF "release_per_handle" \in Deviations THEN Touch(w) ELSE touched
   /\ ReleaseHandle(w)
-  /\ UNCHANGED <<owakes, cur, inPoll>>
+  /\ UNCHANGED <<owakes, cur, inPoll, waking>>
 
 (* send a foreign waker to another thread (Waker is Send)                        *)
 Give(t, w, u) ==
   /\ Owns(t, w) /\ u # t
   /\ fw' = [fw EXCEPT ![w].own = u]
-  /\ UNCHANGED <<ocount, owakes, cur, inPoll, rec, touched>>
+  /\ UNCHANGED <<ocount, owakes, cur, inPoll, rec, touched, waking>>
 
 Core(e) ==
   \/ e.op = "PollBegin"     /\ PollBegin(e.o)
@@ -140,10 +164,12 @@ Core(e) ==
   \/ e.op = "FClone"        /\ FClone(e.t, e.w, e.d)
   \/ e.op = "FWake"         /\ FWake(e.t, e.w)
   \/ e.op = "FWakeByRef"    /\ FWakeByRef(e.t, e.w)
+  \/ e.op = "FWakeBegin"    /\ FWakeBegin(e.t, e.w)
+  \/ e.op = "FWakeEnd"      /\ FWakeEnd(e.t)
   \/ e.op = "FDrop"         /\ FDrop(e.t, e.w)
   \/ e.op = "Give"          /\ Give(e.t, e.w, e.u)
 
-IsWake(e) == e.op \in {"ViewWakeByRef", "FWake", "FWakeByRef"}
+IsWake(e) == e.op \in {"ViewWakeByRef", "FWake", "FWakeByRef", "FWakeBegin"}
 (* the original is woken before the handle that carries the wake is given up: it sees every clone still held *)
 Woken(e) == IF e.op = "ViewWakeByRef" THEN cur ELSE rec[fw[e.w].r].orig
 Do(e) == Core(e) /\ seen' = IF IsWake(e) THEN ocount[Woken(e)] ELSE -1
@@ -160,6 +186,7 @@ TypeOK ==
   /\ \A o \in Orig : ocount[o] \in Int /\ owakes[o] \in Nat
   /\ cur \in Orig /\ inPoll \in BOOLEAN /\ seen \in Int
   /\ \A w \in FW : fw[w].r \in Rec \cup {0} /\ fw[w].own \in Thread
+  /\ \A t \in Thread : Len(waking[t]) <= MaxNest /\ \A k \in DOMAIN waking[t] : waking[t][k] \in FW /\ fw[waking[t][k]].r # 0
 
 RcExact == \A r \in Rec : rec[r].rc = Cardinality({w \in FW : fw[w].r = r})
 
@@ -171,6 +198,8 @@ CountExact == \A o \in Orig : ocount[o] = Cardinality({r \in Rec : rec[r].rc > 0
 (* nothing touches the original through a clone that is already gone             *)
 NeverTouchedAfterRelease == touched = 0
 HeldWhileReferenced == \A w \in FW : fw[w].r # 0 => rec[fw[w].r].held
+(* a handle carries at most one wake at a time *)
+InFlightOnce == \A t, u \in Thread : \A i \in DOMAIN waking[t], j \in DOMAIN waking[u] : (waking[t][i] = waking[u][j]) => (t = u /\ i = j)
 
 (* waking wakes the original exactly once per wake                               *)
 WakeOncePerWake == [][\/ owakes' = owakes
